@@ -2,6 +2,7 @@
    `run_cmd name args` returns the canonical observation line for one case. *)
 From TV Require Import Base.Prelude Base.Utf8 Base.Winnow Gen.Consts Extract.Show.
 From TV Require Import Model.Datetime Model.DatetimeStd Model.Numbers Model.Tree Model.Parse Model.Document Model.Write Model.Encode.
+From TV Require Spec.Norm.
 Require Import String.
 
 Definition first_some {A} (a b : option A) : option A := match a with Some _ => a | None => b end.
@@ -192,4 +193,5 @@ Definition run_cmd (name : bytes) (args : list bytes) : bytes :=
   else if bytes_eqb name (str "fuzz") then match args with [s] => cmd_fuzz s | _ => str "bad-args" end
   else if bytes_eqb name (str "spans") then match args with [s] => cmd_spans s | _ => str "bad-args" end
   else if bytes_eqb name (str "docf") then match args with [s] => cmd_docf s | _ => str "bad-args" end
+  else if bytes_eqb name (str "norm") then match args with [s] => show_hex (Norm.normalize s) | _ => str "bad-args" end
   else str "unknown-command".
